@@ -84,6 +84,10 @@ def term(c, o):
     return _term(c, o)
 
 
+def sub_pid(i, phase, j):
+    return 1000000 + i * 1000 + (0 if phase == "pre" else 500) + j
+
+
 def _term(c, o):
     codes = c3.IdCodes(o)
     ns = o.get("ns") or {}
@@ -94,13 +98,37 @@ def _term(c, o):
     def obs_of(i):
         return o["ops"][i] if i < len(o.get("ops", [])) else {}
 
+    def probe_terms(op, oo, bad):
+        req = vlib.coq_list([str(c3.ds_code(o, d)) for d in op.get("datasets", [])])
+        if op["op"] == "get":
+            probe = "(BGet %d %s)" % (codes.ucode(sc.expand(op["id"])), req)
+            if bad:
+                ob = "(OGet true ([(0, {| c_del := false; c_props := []; c_refs := []; c_len := -9 |})], false))"
+            else:
+                ob = "(OGet %s %s)" % get_obs_term(codes, oo, ns, o)
+        else:
+            pred = 0 if op["pred"] == "*" else codes.ucode(sc.expand(op["pred"]))
+            starts = vlib.coq_list([str(codes.ucode(sc.expand(s))) for s in op["starts"]])
+            lims = vlib.coq_list([vlib.zlit(x) for x in op.get("limits", [])])
+            probe = "(BRel %s %d %s %s %s)" % (starts, pred, vlib.coq_bool(op.get("inverse", False)), req, lims)
+            if bad and "could not load predicate id" in (oo.get("err") or ""):
+                ob = "(ORel None)"
+            elif bad:
+                ob = "(ORel %s)" % BAD_PAGES
+            else:
+                ob = "(ORel (Some %s))" % pages_term(codes, oo, ns, o)
+        return probe, ob
+
+    def ents_term(ents, lens):
+        return vlib.coq_list([sc.ent_term(codes, e, l) for e, l in zip(ents, lens)])
+
     for i, op in enumerate(c["ops"]):
         oo = obs_of(i)
         bad = dead or bool(oo.get("err") or oo.get("panic"))
         k = op["op"]
         if k == "batch":
             lens = oo.get("lens") or [0] * len(op["ents"])
-            terms.append("PWrite (WBatch %d %s)" % (c3.ds_code(o, op["ds"]), vlib.coq_list([sc.ent_term(codes, e, l) for e, l in zip(op["ents"], lens)])))
+            terms.append("PWrite (WBatch %d %s)" % (c3.ds_code(o, op["ds"]), ents_term(op["ents"], lens)))
             if bad:
                 terms.append(BAD_WRITE)
         elif k == "txn":
@@ -109,29 +137,28 @@ def _term(c, o):
             for s in op["sets"]:
                 ls = lens[:len(s["ents"])] + [0] * (len(s["ents"]) - len(lens[:len(s["ents"])]))
                 lens = lens[len(s["ents"]):]
-                sets.append("(%d, %s)" % (c3.ds_code(o, s["ds"]), vlib.coq_list([sc.ent_term(codes, e, l) for e, l in zip(s["ents"], ls)])))
+                sets.append("(%d, %s)" % (c3.ds_code(o, s["ds"]), ents_term(s["ents"], ls)))
             terms.append("PWrite (WTxn %s)" % vlib.coq_list(sets))
             if bad:
                 terms.append(BAD_WRITE)
+        elif k == "race":
+            # sequential outcome: [probes while writer 1 waits] writer 2 [probes] writer 1
+            lens = list(oo.get("lens") or [0] * (len(op["ents"]) + len(op["second"])))
+            l1, l2 = lens[:len(op["ents"])], lens[len(op["ents"]):]
+            dsc = c3.ds_code(o, op["ds"])
+            for phase, key in (("pre", "preobs"), ("mid", "midobs")):
+                if phase == "mid":
+                    terms.append("PWrite (WBatch %d %s)" % (dsc, ents_term(op["second"], l2)))
+                subs = oo.get(key) or []
+                for j, sub in enumerate(op.get(phase, [])):
+                    so = subs[j] if j < len(subs) else {"err": "missing"}
+                    probe, ob = probe_terms(sub, so, dead or bool(so.get("err") or so.get("panic")))
+                    terms.append("PAsk %d %s %s" % (sub_pid(i, phase, j), probe, ob))
+            terms.append(("PWrite (WTxn [(%d, %s)])" if op.get("first_txn") else "PWrite (WBatch %d %s)") % (dsc, ents_term(op["ents"], l1)))
+            if bad:
+                terms.append(BAD_WRITE)
         elif k in ("get", "related"):
-            req = vlib.coq_list([str(c3.ds_code(o, d)) for d in op.get("datasets", [])])
-            if k == "get":
-                probe = "(BGet %d %s)" % (codes.ucode(sc.expand(op["id"])), req)
-                if bad:
-                    ob = "(OGet true ([(0, {| c_del := false; c_props := []; c_refs := []; c_len := -9 |})], false))"
-                else:
-                    ob = "(OGet %s %s)" % get_obs_term(codes, oo, ns, o)
-            else:
-                pred = 0 if op["pred"] == "*" else codes.ucode(sc.expand(op["pred"]))
-                starts = vlib.coq_list([str(codes.ucode(sc.expand(s))) for s in op["starts"]])
-                lims = vlib.coq_list([vlib.zlit(x) for x in op.get("limits", [])])
-                probe = "(BRel %s %d %s %s %s)" % (starts, pred, vlib.coq_bool(op.get("inverse", False)), req, lims)
-                if bad and "could not load predicate id" in (oo.get("err") or ""):
-                    ob = "(ORel None)"
-                elif bad:
-                    ob = "(ORel %s)" % BAD_PAGES
-                else:
-                    ob = "(ORel (Some %s))" % pages_term(codes, oo, ns, o)
+            probe, ob = probe_terms(op, oo, bad)
             if "_twin" in op:
                 terms.append("PPin %d %s" % (op["_twin"], ob))      # the probe itself is the one recorded under that id
             else:
@@ -161,25 +188,43 @@ def r(starts, pred="*", inverse=False, datasets=None, limits=(0,), at=None, exac
     return op
 
 
-def pin(op, at, exact, twin):
+def pin(op, at, exact, twin, phase=None):
     p = json.loads(json.dumps(op))
     p["at"] = {"after_op": at, "exact": bool(exact)}
+    if phase:
+        p["at"]["phase"] = phase
     p["_twin"] = twin
     return p
 
 
 def with_probes(writes, probes_for, exact_for):
-    """interleave: after write i its probes 'now'; after every later write all earlier probes pinned"""
+    """interleave: after write i its probes 'now'; after every later write all earlier probes pinned.  A race op
+    (writer 1 waits for the dataset lock while writer 2 commits) additionally asks its probes while writer 1 waits -
+    before writer 2 starts ("pre") and after it committed ("mid") - and they are pinned to those instants afterwards."""
     ops = []
-    recorded = []                       # (index of the write op, index of the now-probe op, probe)
+    recorded = []                       # (index of the write op, phase, probe id, probe)
     for wi, w in enumerate(writes):
-        ops.append(w)
-        widx = len(ops) - 1
-        for (wj, pj, probe) in recorded:
-            ops.append(pin(probe, wj, exact_for(wi, pj), pj))
+        widx = len(ops)
+        if w["op"] == "race":
+            w = json.loads(json.dumps(w))
+            sub = probes_for(wi)[:3]
+            w["pre"] = json.loads(json.dumps(sub))
+            w["mid"] = json.loads(json.dumps(sub))
+            ops.append(w)
+            for (wj, ph, pj, probe) in recorded:
+                ops.append(pin(probe, wj, exact_for(wi, pj), pj, ph))
+            for ph in ("pre", "mid"):
+                for j, probe in enumerate(sub):
+                    pj = sub_pid(widx, ph, j)
+                    recorded.append((widx, ph, pj, probe))
+                    ops.append(pin(probe, widx, False, pj, ph))        # right after the race: the waiting writer has committed
+        else:
+            ops.append(w)
+            for (wj, ph, pj, probe) in recorded:
+                ops.append(pin(probe, wj, exact_for(wi, pj), pj, ph))
         for probe in probes_for(wi):
             ops.append(probe)
-            recorded.append((widx, len(ops) - 1, probe))
+            recorded.append((widx, None, len(ops) - 1, probe))
     return ops
 
 
@@ -193,7 +238,13 @@ def witness_cases():
     w2 = [B("a", E("e1", {"r1": "e2"}), E("e1", {"r1": "e2"}, True), E("e1", {"r1": ["e2", "e3"]})),   # several versions at one commit time
           B("a", E("e1", {"r1": "e3"})), B("a", E("e1", {}, True))]
     probes2 = lambda wi: [g("e1", ["a"]), r(["e1"], limits=[1]), r(["e3"], "r1", True)] if wi < 2 else []
-    return [{"datasets": c3.DSN, "ops": with_probes(w1, probes, lambda wi, pj: wi % 2 == 0)},
+    w3 = [B("a", E("e1", {"r1": "e2"}), E("e2", {}, False, {"p1": "a"})),
+          c3.R("a", [E("e1", {"r1": "e4"})], [E("e1", {"r1": "e3"})]),      # a transaction queued behind a batch of the same dataset
+          c3.R("a", [E("e1", {}, True)], [E("e1", {"r2": ["e2", "e3"]})], txn=False),
+          B("a", E("e1", {"r1": "e2"}))]
+    probes3 = lambda wi: [g("e1", ["a"]), r(["e1"]), r(["e3"], inverse=True, limits=[1])] if wi < 3 else []
+    return [{"datasets": c3.DSN, "ops": with_probes(w3, probes3, lambda wi, pj: False)},
+            {"datasets": c3.DSN, "ops": with_probes(w1, probes, lambda wi, pj: wi % 2 == 0)},
             {"datasets": c3.DSN, "ops": with_probes(w2, probes2, lambda wi, pj: True)}]
 
 
@@ -274,6 +325,8 @@ def tags(c, o):
     t.append("pinned-probes=%d" % (sum(1 for op in c["ops"] if "_twin" in op) // 10 * 10))
     if any(op["op"] == "txn" for op in c["ops"]):
         t.append("has-txn")
+    if any(op["op"] == "race" for op in c["ops"]):
+        t.append("has-race")
     if any(op.get("at", {}).get("exact") for op in c["ops"]):
         t.append("exact-instant")
     if any(op["op"] == "related" and op.get("inverse") for op in c["ops"]):
